@@ -130,7 +130,7 @@ def double_contract():
 # ---- transition() of the dense exponential prior -----------------------------------------------------
 
 
-def transition_contract(kind):
+def transition_contract(kind, diffuse=0):
     """kind in {'general', 'ou', 'matern'}: prior built by the real constructor (inside the trace), with the
     numerical exp_gram routine abstracted by its contract."""
 
@@ -143,13 +143,15 @@ def transition_contract(kind):
         gram_util.exp_gram_cholesky = lambda *, pade_legendre, solve: abstract_exp_gram
         try:
             ssm = pd.state_space_model_dense()
-            tcoeffs = [jnp.zeros((d,)) + 0.1 * i for i in range(q + 1)]
+            # q+1 coefficients in total, the last ``diffuse`` of them added as diffuse derivatives by the constructor
+            tcoeffs = [jnp.zeros((d,)) + 0.1 * i for i in range(q + 1 - diffuse)]
+            kw = dict(output_scale=base, diffuse_derivatives=diffuse, is_exact=False)
             if kind == "ou":
-                return ssm.prior_ornstein_uhlenbeck_integrated(lambda u: W @ u, tcoeffs, output_scale=base)
+                return ssm.prior_ornstein_uhlenbeck_integrated(lambda u: W @ u, tcoeffs, **kw)
             if kind == "matern":
-                return ssm.prior_matern(length, tcoeffs, output_scale=base)
+                return ssm.prior_matern(length, tcoeffs, **kw)
             ode = pd.ode_autonomous_order_arbitrary(lambda *us: sum(W[i] @ u for i, u in enumerate(us)), num_tcoeffs_in_args=q + 1)
-            return ssm.prior_exponential(ode, tcoeffs, output_scale=base)
+            return ssm.prior_exponential(ode, tcoeffs, **kw)
         finally:
             gram_util.exp_gram_cholesky = old
 
@@ -214,13 +216,14 @@ def transition_contract(kind):
             def make(rng, q=q, d=d):
                 Wshape = (d, d) if kind == "ou" else (q + 1, d, d)
                 return (jnp.asarray(rng.uniform(0.1, 0.5)), jnp.asarray(rng.uniform(0.5, 2.0)), jnp.asarray(rng.uniform(0.5, 2.0, size=(d,))), jnp.asarray(rng.normal(size=Wshape)), jnp.asarray(rng.uniform(0.5, 2.0))), {"q": q, "d": d}
-            out.append(Instance(f"{kind},q={q},d={d}", make, positive=lambda a, k: [a[0], a[1], a[2], a[4]], names=lambda a, k: {id(a[0]): "h", id(a[1]): "sigma", id(a[2]): "base", id(a[3]): "W", id(a[4]): "ell"}))
+            out.append(Instance(f"{kind},q={q},d={d},diffuse={diffuse}", make, positive=lambda a, k: [a[0], a[1], a[2], a[4]], names=lambda a, k: {id(a[0]): "h", id(a[1]): "sigma", id(a[2]): "base", id(a[3]): "W", id(a[4]): "ell"}))
         return out
 
-    return Contract(name=f"{DM}:DenseExponential.transition[{kind}]", module=DM, qualname="DenseExponential.transition", wrap=wrap,
+    return Contract(name=f"{DM}:DenseExponential.transition[{kind},diffuse={diffuse}]", module=DM, qualname="DenseExponential.transition", wrap=wrap,
                     requires=requires, ensures=ensures, instances=instances,
                     doc="after removing the preconditioner: (e^{hA}, 0, sigma^2 int_0^h e^{sA} B B^T e^{sA^T} ds) with A the documented companion drift and B = e_q (x) diag(base); prior built by the real constructor")
 
 
 def contracts():
-    return [double_contract(), transition_contract("general"), transition_contract("ou"), transition_contract("matern")]
+    return [double_contract(), transition_contract("general"), transition_contract("ou"), transition_contract("matern"),
+            transition_contract("matern", diffuse=1), transition_contract("ou", diffuse=1), transition_contract("general", diffuse=1)]
